@@ -5,6 +5,7 @@ package main
 // rule, type-assertion audit, acyclic reference graph.
 
 import (
+	"os"
 	"fmt"
 	"go/ast"
 	"go/token"
@@ -119,6 +120,7 @@ func ruleBounds(p *Prog, r *Report) {
 	var counts map[key]int
 	var firstPos map[key]string
 	unmapped := 0
+	var sites0 []*bceSite
 	for gi, gb := range gobins {
 		sites, nAbort, err := bceSites(p, gb)
 		if err != nil {
@@ -143,6 +145,7 @@ func ruleBounds(p *Prog, r *Report) {
 		r.floor("R20.2", "unproven bounds checks reported by "+gb, len(sites), 150)
 		if gi == 0 {
 			counts, firstPos, unmapped = c, fp, um
+			sites0 = sites
 		} else {
 			// a site proved by either toolchain is discharged: keep the minimum
 			for k, n := range counts {
@@ -192,6 +195,7 @@ func ruleBounds(p *Prog, r *Report) {
 		r.ok("R20.2", okey, firstPos[k], fmt.Sprintf("%d× `%s` in %s — %s: %s", counts[k], k.ex, k.fn, row[3], row[4]))
 	}
 	r.note("R20.2 classes: %v", classCount)
+	ruleBoundsShapes(p, r, sites0, audit2class(audit))
 	ruleCapturedGuards(p, r)
 	// stale rows are only noted
 	for k := range audit {
@@ -1427,4 +1431,169 @@ func decodedByAddress(al *ssa.Alloc) bool {
 		}
 	}
 	return false
+}
+
+func audit2class[K comparable](audit map[K][]string) map[string]string {
+	out := map[string]string{}
+	for _, row := range audit {
+		out[row[0]+"|"+row[1]] = row[3]
+	}
+	return out
+}
+
+// boundsShape: what is indexed, with what, under which conditions (go/ssa instruction at the
+// position of the bracket).
+func boundsShape(p *Prog, fn *ssa.Function, node ast.Expr) (string, bool) {
+	var lbrack token.Pos
+	switch e := node.(type) {
+	case *ast.IndexExpr:
+		lbrack = e.Lbrack
+	case *ast.SliceExpr:
+		lbrack = e.Lbrack
+	default:
+		return "", false
+	}
+	for _, b := range fn.Blocks {
+		for _, in := range b.Instrs {
+			if in.Pos() != lbrack {
+				continue
+			}
+			d := ""
+			switch x := in.(type) {
+			case *ssa.IndexAddr:
+				d = descOperand(x.X) + "[" + descOperand(x.Index) + "]"
+			case *ssa.Index:
+				d = descOperand(x.X) + "[" + descOperand(x.Index) + "]"
+			case *ssa.Lookup:
+				d = descOperand(x.X) + "[" + descOperand(x.Index) + "]"
+			case *ssa.Slice:
+				lo, hi := "", ""
+				if x.Low != nil {
+					lo = descOperand(x.Low)
+				}
+				if x.High != nil {
+					hi = descOperand(x.High)
+				}
+				d = descOperand(x.X) + "[" + lo + ":" + hi + "]"
+			default:
+				continue
+			}
+			return d + " if " + strings.Join(guardSet(in), " && "), true
+		}
+	}
+	return "", false
+}
+
+// ruleBoundsShapes: rows of class L ("the guard is visible in the source") were audited by
+// reading the function; the shape of the site is frozen so that the audit is redone when the
+// indexed value, the index or the guarding conditions change.
+func ruleBoundsShapes(p *Prog, r *Report, sites []*bceSite, class map[string]string) {
+	r.rule("R20.2f", "Audited residuals of class L (a guard in the same function makes the index safe) keep the shape that was audited: for each such site the go/ssa instruction at the bracket gives what is indexed, with which index or bounds, under which controlling conditions; the multiset per function and expression is compared with tables/bounds_shape.tsv. (The row `line[indent:]` of the Cisco parser is safe because the line was trimmed and is not empty; a change that makes the trimming conditional leaves the expression and its count as they are.)")
+	byName := fnDisplayIndex(p)
+	got := map[string][]string{}
+	pos := map[string]string{}
+	for _, s := range sites {
+		k := s.Func + "|" + s.Expr
+		if class[k] != "L" || s.Node == nil {
+			continue
+		}
+		fn := byName[s.Func]
+		if fn == nil {
+			continue
+		}
+		if sh, ok := boundsShape(p, fn, s.Node); ok {
+			got[k] = append(got[k], sh)
+			if pos[k] == "" {
+				pos[k] = fmt.Sprintf("go/%s:%d", s.File, s.Line)
+			}
+		}
+	}
+	if os.Getenv("DUMP_BOUNDS_SHAPES") != "" {
+		var ks []string
+		for k := range got {
+			ks = append(ks, k)
+		}
+		sort.Strings(ks)
+		for _, k := range ks {
+			f, e, _ := strings.Cut(k, "|")
+			l := append([]string{}, got[k]...)
+			sort.Strings(l)
+			for _, sh := range l {
+				fmt.Printf("SHAPE\t%s\t%s\t%s\n", f, e, sh)
+			}
+		}
+	}
+	want := map[string][]string{}
+	for _, row := range readTable("bounds_shape.tsv", 3) {
+		want[row[0]+"|"+row[1]] = append(want[row[0]+"|"+row[1]], row[2])
+	}
+	var ks []string
+	for k := range got {
+		ks = append(ks, k)
+	}
+	sort.Strings(ks)
+	n := 0
+	for _, k := range ks {
+		n++
+		g, w := append([]string{}, got[k]...), append([]string{}, want[k]...)
+		sort.Strings(g)
+		sort.Strings(w)
+		// every present shape must be an audited one (fewer occurrences are fine: the compiler proved some)
+		ok := true
+		wi := map[string]int{}
+		for _, x := range w {
+			wi[x]++
+		}
+		for _, x := range g {
+			if wi[x] == 0 {
+				ok = false
+			} else {
+				wi[x]--
+			}
+		}
+		r.add("R20.2f", "bounds-shape|"+k, pos[k], fmt.Sprintf("%d class-L site(s) `%s` keep their audited shape", len(g), k), ok,
+			fmt.Sprintf("what is indexed, the index or the guarding conditions changed since the audit.\n   audited: %q\n   now:     %q", w, g))
+	}
+	r.floor("R20.2f", "class-L sites with a shape", n, 30)
+}
+
+// descOperand: descValue, but a variable that lives in a cell (captured by a closure, or its
+// address taken) is described by what is stored into it and under which conditions.
+func descOperand(v ssa.Value) string {
+	u, ok := v.(*ssa.UnOp)
+	if !ok || u.Op != token.MUL {
+		return descValue(v, 1)
+	}
+	var cell *ssa.Alloc
+	switch a := u.X.(type) {
+	case *ssa.Alloc:
+		cell = a
+	case *ssa.FreeVar:
+		// the binding in the enclosing function
+		fn := a.Parent()
+		for i, fv := range fn.FreeVars {
+			if fv != a || fn.Parent() == nil {
+				continue
+			}
+			for _, b := range fn.Parent().Blocks {
+				for _, in := range b.Instrs {
+					if mc, ok := in.(*ssa.MakeClosure); ok && mc.Fn == fn && i < len(mc.Bindings) {
+						if al, ok := mc.Bindings[i].(*ssa.Alloc); ok {
+							cell = al
+						}
+					}
+				}
+			}
+		}
+	}
+	if cell == nil {
+		return descValue(v, 1)
+	}
+	var l []string
+	for _, st := range cellStores(cell) {
+		l = append(l, descValue(st.Val, 2)+" when ["+strings.Join(guardSet(st), " && ")+"]")
+	}
+	sort.Strings(l)
+	l = uniqStrings(l)
+	return "cell{" + strings.Join(l, " | ") + "}"
 }
